@@ -192,6 +192,11 @@ pub fn cmd_files_replay(a: &HashMap<String, String>) -> i32 {
             continue;
         }
         let img = &full[..cut.min(full.len())];
+        if v["hostile"]["pos"] != "none" {
+            // should the parser take the process down (an impossible allocation aborts), the orchestrator finds the case here
+            let _ = writeln!(out, "CASE {}", v);
+            let _ = out.flush();
+        }
         let p = if fmt == "pth" { parse_pth(img) } else { parse_smx(img) };
         n += 1;
         let allowed = 65536 + 8 * img.len();
